@@ -368,4 +368,129 @@ Proof.
   rewrite ?Hnil, ?D2, ?len_nil in ER. simpl in ER. inversion ER.
 Qed.
 
+Lemma readLoop_keeps_local : forall fuel s n acc s' d e bug, readLoop fuel s n acc = (s', d, e, bug) ->
+  cancelledLocally s' = cancelledLocally s.
+Proof.
+  induction fuel as [|fuel IH]; intros s n acc s' d e bug H; simpl in H; [inversion H; auto|].
+  destruct (n <=? len acc).
+  { destruct (remoteEffective s); inversion H; subst; auto. }
+  destruct (if (match cur s with [] => true | _ => false end) || (len (cur s) <=? rpif s) then dequeue s else (s, false)) as [s1 b1] eqn:Ed.
+  assert (D1 : cancelledLocally s1 = cancelledLocally s).
+  { destruct (_ || _); [|inversion Ed; auto].
+    unfold dequeue in Ed. destruct (Pop _) as [[q1 [[off dd] cb]] bb]. inversion Ed; subst. auto. }
+  revert H. repeat match goal with
+  | |- context [if ?c then _ else _] => destruct c
+  end; intros H; try (inversion H; subst; simpl; auto; fail).
+  apply IH in H. simpl in H. congruence.
+Qed.
+
+Lemma readImpl_keeps_local s n s1 d e b : readImpl s n = (s1, d, e, b) -> cancelledLocally s1 = cancelledLocally s.
+Proof.
+  unfold readImpl. intros ER.
+  destruct (curIsLast s && _); [inversion ER; subst; auto|].
+  destruct (cancelledLocally s || remoteEffective s); [inversion ER; subst; auto|].
+  destruct (shutdown s); [inversion ER; subst; auto|].
+  eapply readLoop_keeps_local; eauto.
+Qed.
+
+(** * histories: both invariants hold in every reachable state *)
+Lemma rstep_RSInv2 r o r' : RRInv S r -> RSInv2 (rr_st r) -> rvalid o -> rstep S r o = Some r' -> RSInv2 (rr_st r').
+Proof.
+  intros [R _ _] R2 Hv Hs. destruct o as [off n fin cb|final reliable code|n|n|code|]; simpl in Hs.
+  - destruct Hv as (V1&V2).
+    destruct (handleStreamFrame (rr_st r) (slice S off n) off fin cb) as [s' e] eqn:EH.
+    destruct e; try discriminate. inversion Hs; subst; simpl. exact (frame_RSInv2 _ _ _ _ _ _ R R2 V1 EH).
+  - destruct Hv as (V1&V2).
+    destruct (handleResetStreamFrame (rr_st r) final reliable code) as [s' e] eqn:EH.
+    destruct e; try discriminate. inversion Hs; subst; simpl. exact (reset_RSInv2 _ _ _ _ _ R R2 V2 EH).
+  - destruct (Read (rr_st r) n) as [[[s' d] e] bug] eqn:ER. destruct bug; [discriminate|].
+    inversion Hs; subst; simpl. eapply Read_RSInv2; eauto.
+  - destruct (PeekS (rr_st r) n) as [[[s' d] e] bug] eqn:EP. destruct bug; [discriminate|].
+    inversion Hs; subst; simpl. eapply Peek_RSInv2; eauto.
+  - inversion Hs; subst; simpl. apply Cancel_RSInv2; auto.
+  - inversion Hs; subst; simpl. eapply RSInv2_fields; eauto.
+Qed.
+
+Lemma rsrun_both ops : forall r r', RRInv S r -> RSInv2 (rr_st r) -> Forall rvalid ops -> rsrun S r ops = Some r' ->
+  RRInv S r' /\ RSInv2 (rr_st r').
+Proof.
+  induction ops as [|o ops IH]; intros r r' R R2 Hv Hs; simpl in Hs.
+  - inversion Hs; subst. auto.
+  - inversion Hv; subst. destruct (rstep S r o) as [r1|] eqn:E1; [|discriminate].
+    apply (IH r1 r'); auto; [eapply rstep_RRInv; eauto|eapply rstep_RSInv2; eauto].
+Qed.
+
+Lemma reach_both w ops r : 0 <= w < MaxBC -> Forall rvalid ops -> rsrun S (rrun_init w) ops = Some r ->
+  RSInv S (rr_st r) /\ RSInv2 (rr_st r).
+Proof.
+  intros Hw Hv Hs. destruct (rsrun_both ops _ _ (RRInv_init S w Hw) (RSInv2_init w) Hv Hs) as ([R _ _]&R2). auto.
+Qed.
+
+(** liveness of Read in every reachable state *)
+Theorem recv_read_live w ops r n s' d e bug : 0 <= w < MaxBC -> Forall rvalid ops ->
+  rsrun S (rrun_init w) ops = Some r -> 0 < n -> Read (rr_st r) n = (s', d, e, bug) ->
+  (available (rr_st r) \/ latched (rr_st r) = true \/
+   (fc_final (rr_st r) = true /\ rpos (rr_st r) = finalOffset (rr_st r)) -> e <> EWouldBlock) /\
+  (available (rr_st r) -> latched (rr_st r) = false -> 0 < len d).
+Proof.
+  intros Hw Hv Hs Hn HR. destruct (reach_both w ops r Hw Hv Hs) as (R&R2). split.
+  - intros Hc. eapply Read_no_block; eauto.
+  - intros Ha Hl. eapply Read_progress; eauto.
+Qed.
+
+(** a frame that is accepted while reading is not cancelled locally is buffered — also after
+    a reset, also when it straddles the reliable size *)
+Theorem recv_frame_buffers s off n fin cb s' : RSInv S s -> 0 <= off -> 0 <= n ->
+  handleStreamFrame s (slice S off n) off fin cb = (s', FNil) -> cancelledLocally s = false ->
+  rpos s' = rpos s /\ crest s' = crest s /\
+  forall x, off <= x < off + n -> rpos s + crest s <= x -> cov (queue (sorter s')) x.
+Proof.
+  intros R H0 Hn H Hcl. pose proof H as H'. unfold handleStreamFrame in H. rewrite len_slice in H by lia.
+  destruct (fcUpdate s (off + n) fin) as [s1 e1] eqn:Ef.
+  destruct e1; try (inversion H; discriminate).
+  destruct (fcUpdate_ok _ _ _ _ Ef) as (A1&A2&A3&A4&A5&A6&A7&A8&A9&A10&A11&A12&A13&A14&A15&A16).
+  set (s2 := if fin then set_final s1 (off + n) else s1) in *.
+  assert (B : sorter s2 = sorter s /\ cancelledLocally s2 = false /\ rpos s2 = rpos s /\ cur s2 = cur s /\ rpif s2 = rpif s).
+  { unfold s2. destruct fin; simpl; rewrite ?A1, ?A8, ?A2, ?A3, ?A4; auto. }
+  destruct B as (B1&B2&B3&B4&B5). rewrite B2 in H.
+  destruct (Push (sorter s2) (slice S off n) off cb) as [q rr] eqn:EP. rewrite B1 in EP.
+  pose proof (v_win _ _ R) as VW.
+  assert (Hmax : off + n < MaxBC).
+  { destruct (Z.le_gt_cases (off + n) (fc_highest s)); [lia|]. specialize (A14 ltac:(lia)). lia. }
+  destruct (Push_post S _ _ _ _ _ _ (v_inv _ _ R) H0 Hn Hmax EP) as (_&Hok).
+  destruct rr; simpl in H; try (inversion H; discriminate).
+  destruct (Hok eq_refl) as (_&Hrp&Hcov&_).
+  assert (E' : s' = isNewlyCompleted (set_sorter s2 q)) by (inversion H; reflexivity).
+  assert (Hf : sorter s' = q /\ rpos s' = rpos s /\ cur s' = cur s /\ rpif s' = rpif s).
+  { subst s'. destruct (inc_cases (set_sorter s2 q)) as [-> | ->]; simpl; auto. }
+  destruct Hf as (F1&F2&F3&F4). split; auto. split; [unfold crest; rewrite F3, F4; reflexivity|].
+  intros x Hx Hr. rewrite F1. apply Hcov. right. split; auto. rewrite (v_pos _ _ R). exact Hr.
+Qed.
+
+(** RESET_STREAM_AT: below the reliable size data is still delivered, at or above it the
+    reader gets the reset error (or the EOF it had already earned), and never earlier *)
+Theorem recv_reset_at_delivers s n s' d e bug : RSInv S s -> 0 < n ->
+  cancelledRemotely s = true -> cancelledLocally s = false -> shutdown s = false ->
+  Read s n = (s', d, e, bug) ->
+  (rpos s < reliableSize s -> available s -> 0 < len d /\ d = slice S (rpos s) (len d)) /\
+  (reliableSize s <= rpos s -> d = [] /\ (e = cancel_rerr s \/ e = EEOF)) /\
+  (forall c r, e = ECancel c r -> reliableSize s' <= rpos s').
+Proof.
+  intros R Hn Hcr Hcl Hsh H. split; [|split].
+  - intros Hlt Ha.
+    assert (Hl : latched s = false).
+    { unfold latched, remoteEffective. rewrite Hsh, Hcl, Hcr. simpl. apply Z.leb_gt. lia. }
+    split; [eapply Read_progress; eauto|].
+    assert (Hn0 : 0 <= n) by lia. destruct (Read_spec S _ _ _ _ _ _ R Hn0 H) as (_&_&Hd&_). exact Hd.
+  - intros Hge. unfold Read in H. destruct (readImpl s n) as [[[s1 d1] e1] b1] eqn:ER. inversion H; subst; clear H.
+    unfold readImpl in ER. destruct (curIsLast s && _); [inversion ER; auto|].
+    assert (Hre : remoteEffective s = true) by (unfold remoteEffective; rewrite Hcr; simpl; apply Z.leb_le; lia).
+    rewrite Hre, orb_true_r in ER. inversion ER; auto.
+  - intros c r He. subst e. destruct (recv_cancel_error _ _ _ _ _ _ _ H) as [Hc|(_&Hc)]; auto.
+    exfalso. unfold Read in H. destruct (readImpl s n) as [[[s1 d1] e1] b1] eqn:ER. inversion H; subst; clear H.
+    assert (Hk : cancelledLocally (isNewlyCompleted s1) = cancelledLocally s).
+    { destruct (inc_cases s1) as [-> | ->]; simpl; eapply readImpl_keeps_local; eauto. }
+    congruence.
+Qed.
+
 End WithS.
